@@ -225,21 +225,75 @@ class CallMixin:
     bi_np_fabs = bi_abs
     bi_np_abs = bi_abs
 
-    def _minmax(self, args, st, spec, is_min):
+    def _minmax(self, args, st, spec, is_min, kwargs=None):
         if len(args) == 1:
-            raise Unsupported("min/max over an iterable")
+            return self._minmax_seq(args[0], st, spec, is_min, (kwargs or {}).get("key"))
         acc = args[0]
         for b in args[1:]:
+            if acc.ty.kind == "ext" or b.ty.kind == "ext":
+                ea, eb = self.coerce(acc, EXT, st), self.coerce(b, EXT, st)
+                lt = lambda p, q: z3.Or(p.aux < q.aux, z3.And(p.aux == 0, q.aux == 0, p.t < q.t))
+                c = lt(eb, ea) if is_min else lt(ea, eb)
+                acc = SV(EXT, z3.If(c, eb.t, ea.t), z3.If(c, eb.aux, ea.aux))
+                continue
             ty, x, y = self.num_pair(acc, b)
             # python: min(a,b) returns a unless b < a ; max(a,b) returns a unless b > a
             acc = SV(ty, z3.If(y < x, y, x) if is_min else z3.If(y > x, y, x))
         return acc
 
+    def _minmax_seq(self, v, st, spec, is_min, key=None):
+        """min / max of a non-empty sequence: some element that no other element beats (ties: the library returns the first)"""
+        e, arr, off, ln = self.seq_of(v, st, spec)
+        if not spec:
+            self.ctx.oblige(st, "safe:minmax", ln > 0, text="min/max of a non-empty sequence")
+        w = self.ctx.fresh("argopt", z3.IntSort())
+        st.assume(z3.And(0 <= w, w < ln))
+        i = self.ctx.fresh("i", z3.IntSort())
+        res = SV(e, arr[_ix(w, off)])
+        elem = SV(e, arr[_ix(i, off)])
+        st.qdepth += 1
+        st.qids.add(i.get_id())
+        try:
+            if key is not None:
+                kr = self.apply(key, [res], {}, st, True)
+                ke = self.apply(key, [elem], {}, st, True)
+            else:
+                kr, ke = res, elem
+            ty, x, y = self.num_pair(kr, ke)
+        finally:
+            st.qdepth -= 1
+            st.qids.discard(i.get_id())
+        st.assume(z3.ForAll([i], z3.Implies(z3.And(0 <= i, i < ln), (x <= y) if is_min else (x >= y)),
+                            patterns=[arr[_ix(i, off)]] if pattern_ok(arr) and z3.is_int_value(off) and off.as_long() == 0 else [],
+                            qid="minmax_%s" % w))
+        if e.kind in ("ref", "list"):
+            st.assume(z3.And(res.t >= 1, res.t < st.alloc()))
+        st.env["_arg_index"] = mk_int(w)
+        self.ctx.models_used.add("min/max(seq[, key]): an element of the sequence that is <= / >= every element (by the key)")
+        return res
+
     def bi_min(self, args, kwargs, st, spec):
-        return self._minmax(args, st, spec, True)
+        return self._minmax(args, st, spec, True, kwargs)
 
     def bi_max(self, args, kwargs, st, spec):
-        return self._minmax(args, st, spec, False)
+        return self._minmax(args, st, spec, False, kwargs)
+
+    def bi_np_subtract(self, args, kwargs, st, spec):
+        a, b = args
+        e1, arr1, off1, l1 = self.seq_of(a, st, spec)
+        e2, arr2, off2, l2 = self.seq_of(b, st, spec)
+        if not spec:
+            self.ctx.oblige(st, "safe:shape", l1 == l2, text="np.subtract on sequences of equal length")
+        j = self.ctx.fresh("j", z3.IntSort())
+        if st.qdepth > 0:
+            arr = z3.Lambda([j], arr1[_ix(j, off1)] - arr2[_ix(j, off2)])
+        else:
+            plain = all(z3.is_int_value(o) and o.as_long() == 0 for o in (off1, off2))
+            arr = self.defined_array("sub", z3.ArraySort(z3.IntSort(), z3.RealSort()),
+                                     lambda t: arr1[_ix(t, off1)] - arr2[_ix(t, off2)], st,
+                                     also=[arr1, arr2] if plain else (), rng=(z3.IntVal(0), l1) if plain else None)
+        self.ctx.models_used.add("np.subtract(a, b): element-wise difference of two equally long sequences")
+        return mk_seq(REAL, arr, z3.IntVal(0), l1)
 
     def bi_float(self, args, kwargs, st, spec):
         v = args[0]
@@ -1151,6 +1205,18 @@ class CallMixin:
         arr = st.harr("$owner", z3.ArraySort(z3.IntSort(), z3.IntSort()))
         return SV(Ty("ref", "object"), arr[v.t])
 
+    def spec_empty_int_seq(self, node, st):
+        return mk_seq(INT, z3.K(z3.IntSort(), z3.IntVal(0)), z3.IntVal(0), z3.IntVal(0))
+
+    def spec_seq_append(self, node, st):
+        """seq_append(s, v): the value sequence s extended by v (ghost sequences)"""
+        s_ = self.ev(node.args[0], st, True)
+        v = self.ev(node.args[1], st, True)
+        e, arr, off, ln = self.seq_of(s_, st, True)
+        if not (z3.is_int_value(off) and off.as_long() == 0):
+            raise Unsupported("seq_append on a slice")
+        return mk_seq(e, z3.Store(arr, ln, self.coerce(v, e, st).t), z3.IntVal(0), z3.simplify(ln + 1))
+
     def spec_is_inf(self, node, st):
         v = self.coerce(self.ev(node.args[0], st, True), EXT, st)
         return mk_bool(v.aux != 0)
@@ -1324,10 +1390,14 @@ class CallMixin:
             if con.raises and not spec:
                 outcome = ctx.choose(1 + len(con.raises))
             st.call_pre = pre
+            ghost_out = {}
             if outcome == 0:
                 env2 = dict(callee_env)
                 if result is not None:
                     env2["result"] = result
+                for gname, gty in con.ghost_results.items():
+                    # ghost outputs of the callee (witnesses its postcondition talks about) are existential for the caller
+                    ghost_out[gname] = env2[gname] = self.fresh_value(gty, "g_" + gname, st)
                 st.env = env2
                 skip = self.contract.options.get("skip_ensures", {}).get(con.qualname, ())
                 for e in con.ensures:
@@ -1342,6 +1412,8 @@ class CallMixin:
                 raise RaiseSig(exc, line)
         finally:
             st.env, st.bound, st.call_pre = saved_env, saved_bound, saved_pre
+        for gname, gv in ghost_out.items():
+            st.env[gname] = gv
         return result if result is not None else mk_none()
 
     def fresh_value(self, ty, base, st):
